@@ -615,3 +615,21 @@ def streams(tier, rng):
     out.append(_model_script_stream("elvish", tier, rng))
     out.append(_model_script_stream("powershell", tier, rng))
     return out
+
+
+# what MANIFEST.json says about C17 after round 2
+RULE = RULE + ("  Streams elvish-model / powershell-model: trees with an adversarial text in every slot on which the script of "
+               "the extracted generator model (with the texts as given and with innocuous texts) must equal the real script "
+               "byte for byte.")
+LEVEL_TEXT = (LEVEL_TEXT +
+              "  Round 2: for PowerShell and elvish the per-slot theorems are composed through byte-exact models of the two "
+              "generators: for every command tree (any depth) whose names contain no quote character of the shell's lexer "
+              "and no '#', and for ANY two assignments of description texts (help/about present or absent, empty or not), "
+              "the ENTIRE generated scripts have the same token skeleton and final lexer state; the skeleton equals that of "
+              "the script generated with no text at all and every literal is closed at the end (each text is literal "
+              "payload only); Command::build keeps a tree in the class.  A quote in a name is a proved class boundary "
+              "(names are written unescaped; witness replayed on the real generators).")
+LEVEL_NOTE = ("Trusted: Coq kernel, extraction, OCaml drivers, Rust harness, generators, the shell lexer models (only "
+              "bash can be executed here), the table translator.  Which slot is emitted through which escape "
+              "function is proved for PowerShell and elvish (generator models, tied byte for byte on every run) and "
+              "checked on the real scripts only (oracle) for zsh, fish and nushell.")
